@@ -307,6 +307,22 @@ def check(ctx):
     bad = sorted(n for n in calls if (n.split(".")[-1] in ("split", "rsplit") and not n.endswith("lexer.split")) or n == "shlex.split")
     ctx.ob("R3", f"{BI}:subproc_captured_inject", "the captured text is split into words by the shell lexer", lex, key="inject|no-lexer-split")
     ctx.ob("R3", f"{BI}:subproc_captured_inject", "no other word splitter (str.split / shlex.split) is applied", not bad, key="inject|other-splitter", detail=str(bad))
+    # ... and the lexer's own split() is the token stream on every path: the tokenizer's notion of a blank (space, tab, form
+    # feed) is narrower than str.split()'s (NBSP, U+3000, 0x1c-0x1f ...), so a shortcut that splits the text itself delivers
+    # other words for exactly the inputs it was meant to speed up
+    lx = ctx.repo.module("xonsh/parsers/lexer.py")
+    lsp = flat(ctx, lx.func("Lexer.split"), 2, skip=("input",))
+    sparam = param_name(lsp, 0)
+    lcfg = CFG(lsp)
+    feeds = [n for n in lcfg.nodes if n.kind == "stmt" and any(isinstance(c.func, ast.Attribute) and c.func.attr == "input" and unparse(c.func.value) == "self" and c.args and unparse(c.args[0]) == sparam for c in calls_in(n.ast))]
+    rets = [n for n in lcfg.nodes if n.kind == "stmt" and isinstance(n.ast, ast.Return)]
+    if not feeds or not rets:
+        raise AnalysisError("xonsh/parsers/lexer.py:Lexer.split: the tokenizer feed / the returns were not found")
+    for r_ in rets:
+        ok = lcfg.dominated(r_, lambda m: m in feeds)
+        ctx.ob("R3", "xonsh/parsers/lexer.py:Lexer.split", f"`{short(r_.ast, 40)}` is reached only after the text was handed to the tokenizer (no answer computed from the text itself)", ok, key="Lexer.split|answer-without-token-stream", where=loc(r_.ast))
+    own = [c for c in calls_in(lsp) if isinstance(c.func, ast.Attribute) and c.func.attr in ("split", "rsplit", "splitlines", "partition") and sparam in df.names_read(c.func.value)] + [c for c in calls_in(lsp) if (call_name(c) or "") in ("shlex.split", "re.split") and any(sparam in df.names_read(a) for a in c.args)]
+    ctx.ob("R3", "xonsh/parsers/lexer.py:Lexer.split", "the text is never split by a string method / shlex / re (words are made of tokens only)", not own, key="Lexer.split|text-split-directly", where=loc(own[0]) if own else loc(lsp), detail=short(own[0], 60) if own else None)
 
     # ------------------------------------------------------------------ R4
     sp = ctx.repo.module(SP)
